@@ -67,7 +67,18 @@ class SeqBuilder:
             outs = []
             for n in ast.walk(self.fn):
                 if isinstance(n, ast.Return) and n.value is not None:
-                    outs.append(self._value(n.value))
+                    try:
+                        outs.append(self._value(n.value))
+                    except Unknown:
+                        # not a list display: the returned object is a sequence of its own items (`return text.split(".")`,
+                        # or a local assigned such an expression once)
+                        v = n.value
+                        if isinstance(v, ast.Name):
+                            ds = [d for d in ast.walk(self.fn) if isinstance(d, ast.Assign) and len(d.targets) == 1
+                                  and isinstance(d.targets[0], ast.Name) and d.targets[0].id == v.id]
+                            if len(ds) == 1:
+                                v = ds[0].value
+                        outs.append([("each", v, False, None)])
         except Unknown:
             return None
         return outs
